@@ -5,7 +5,7 @@
        arrive: the step ends in the same state with the same result. *)
 From Coq Require Import List NArith ZArith Arith Bool Lia.
 From RecordUpdate Require Import RecordUpdate.
-From Iodine Require Import Generated.SrcConsts Base DnsName DnsMsg Negotiate LoginGlue Shell Handshake.
+From Iodine Require Import Generated.SrcConsts Base DnsName DnsMsg Negotiate Login LoginGlue Shell Handshake.
 Import ListNotations.
 Local Open Scope N_scope.
 
@@ -256,15 +256,38 @@ Proof.
   destruct (is_lnak_or_badip buf); apply Bnd_ret.
 Qed.
 
-Definition full_bound : N := qtype_queries + 5 + 5 + 3 + 3 * upenc_tests + 5 + 12 + 5 + 5 + 48 + 5.
+Lemma Bnd_raw_wait : Bnd 0 raw_wait.
+Proof.
+  intros s l; unfold raw_wait; destruct l as [|[|m d] r]; cbn [fst snd].
+  - split; [lia | exists []; reflexivity].
+  - split; [lia | exists [IT]; reflexivity].
+  - split; [lia | exists [ID m d]; reflexivity].
+Qed.
+
+Lemma Bnd_raw_udp seed : Bnd 7 (hs_raw_udp seed).
+Proof.
+  unfold hs_raw_udp. change 7 with (3 + 4).
+  apply Bnd_bind.
+  - eapply Bnd_weaken; [|apply Bnd_attempts with (kb := 1); [|apply Bnd_ret]]; [cbn; lia |].
+    unfold rawip_body; bnd_ask_body.
+  - intros got; destruct got; [|eapply Bnd_weaken; [|apply Bnd_ret]; lia].
+    eapply Bnd_weaken; [|apply Bnd_attempts with (kb := 1); [|apply Bnd_ret]]; [cbn; lia |].
+    unfold rawlogin_body, send_raw. change 1 with (1 + (0 + (0 + 0))).
+    apply Bnd_bind; [apply Bnd_modify_q; intros ?; cbn; lia | intros _].
+    apply Bnd_bind; [apply Bnd_raw_wait | intros d].
+    apply Bnd_bind; [apply Bnd_get | intros s].
+    destruct d as [dg|]; [destruct (raw_login_ok _ _ _) |]; apply Bnd_ret.
+Qed.
+
+Definition full_bound : N := qtype_queries + 5 + 5 + 7 + 3 + 3 * upenc_tests + 5 + 12 + 5 + 5 + 48 + 5.
 
 Lemma Bnd_unit_modify (f : hs -> hs) : (forall s, h_q (f s) = h_q s) -> Bnd 0 (modify f).
 Proof. intros H; apply Bnd_modify_q; intros s; rewrite H; lia. Qed.
 
-Lemma Bnd_full autofrag fragsize : Bnd full_bound (hs_full autofrag fragsize).
+Lemma Bnd_full rawmode autofrag fragsize : Bnd full_bound (hs_full rawmode autofrag fragsize).
 Proof.
   unfold hs_full, full_bound.
-  eapply Bnd_weaken with (k := 0 + (0 + (qtype_queries + (5 + (5 + (0 + (3 + (0 + (3 * upenc_tests + (5 + (0 + (12 + (0 + (5 + (5 + (48 + 5)))))))))))))))); [lia |].
+  eapply Bnd_weaken with (k := 0 + (0 + (qtype_queries + (5 + (5 + (0 + (7 + (0 + (3 + (0 + (3 * upenc_tests + (5 + (0 + (12 + (0 + (5 + (5 + (48 + 5)))))))))))))))))); [lia |].
   apply Bnd_bind; [apply Bnd_unit_modify; reflexivity | intros _].
   apply Bnd_bind; [apply Bnd_get | intros s].
   apply Bnd_bind; [destruct (_ =? _); [apply Bnd_qtype_auto | eapply Bnd_weaken; [|apply Bnd_ret]; lia] | intros r0].
@@ -273,6 +296,11 @@ Proof.
   destruct (negb _); [eapply Bnd_weaken; [|apply Bnd_ret]; lia |].
   apply Bnd_bind; [apply Bnd_login | intros r2].
   destruct r2 as [[|p|p]|]; try (eapply Bnd_weaken; [|apply Bnd_ret]; lia).
+  apply Bnd_bind; [apply Bnd_get | intros sv].
+  apply Bnd_bind; [destruct rawmode; [apply Bnd_raw_udp | eapply Bnd_weaken; [|apply Bnd_ret]; lia] | intros raw].
+  destruct raw.
+  { eapply Bnd_weaken with (k := 0 + 0); [lia |].
+    apply Bnd_bind; [apply Bnd_unit_modify; reflexivity | intros _; apply Bnd_ret]. }
   apply Bnd_bind; [apply Bnd_unit_modify; reflexivity | intros _].
   apply Bnd_bind; [apply Bnd_downenctest | intros e].
   apply Bnd_bind; [apply Bnd_unit_modify; reflexivity | intros _].
@@ -298,7 +326,7 @@ Definition step_bound (st : stepname) : N :=
   | SVersion => 5 | SEdns0 => 3 | SUpenctest _ => 3 | SUpencAuto => 3 * upenc_tests | SDownenctest => 3
   | SDownencAuto => 12 | SQtypetest => 1 | SQtypeAuto => qtype_queries | SSwitchCodec _ => 5 | SSwitchDownenc => 5
   | STryLazy => 5 | SLazyoff => 5 | SAutoprobe => 48 | SSetFragsize => 5
-  | SLogin => 5 | SFull _ _ => full_bound
+  | SLogin => 5 | SFull _ _ _ => full_bound | SRawUdp _ => 7
   end.
 
 Lemma Bnd_then_ret {A B} k (m : M A) (f : A -> B) : Bnd k m -> Bnd k (x <- m ;; ret (f x)).
@@ -312,7 +340,7 @@ Proof.
     first [ apply Bnd_login | apply Bnd_full
           | apply Bnd_then_ret;
             first [apply Bnd_version | apply Bnd_qtype_auto | apply Bnd_downenctest | apply Bnd_upenctest | apply Bnd_upenc_auto
-                  | apply Bnd_downenc_auto | apply Bnd_qtypetest | apply Bnd_autoprobe]
+                  | apply Bnd_downenc_auto | apply Bnd_qtypetest | apply Bnd_autoprobe | apply Bnd_raw_udp]
           | apply Bnd_then_ret0;
             first [apply Bnd_switch_codec | apply Bnd_any_reply | apply Bnd_try_lazy | apply Bnd_lazyoff] ].
 Qed.
@@ -320,7 +348,7 @@ Qed.
 (* the numbers, on the current source constants *)
 Lemma upenc_tests_val : upenc_tests = 7. Proof. reflexivity. Qed.
 Lemma qtype_queries_val : qtype_queries = 27. Proof. reflexivity. Qed.
-Lemma full_bound_val : full_bound = 141. Proof. reflexivity. Qed.
+Lemma full_bound_val : full_bound = 148. Proof. reflexivity. Qed.
 
 (* ---- (2) datagrams that can never fit are ignored, wherever they arrive ------------------------------ *)
 
@@ -507,7 +535,7 @@ Proof.
   destruct (is_lnak_or_badip buf); apply Ign_ret.
 Qed.
 
-Lemma Ign_full autofrag fragsize : Ign (hs_full autofrag fragsize).
+Lemma Ign_full autofrag fragsize : Ign (hs_full false autofrag fragsize).
 Proof.
   unfold hs_full.
   apply Ign_bind; [apply Ign_modify; intros ? ?; cbn; assumption | intros _].
@@ -518,6 +546,9 @@ Proof.
   destruct (negb _); [apply Ign_ret |].
   apply Ign_bind; [apply Ign_login | intros r2].
   destruct r2 as [[|p|p]|]; try apply Ign_ret.
+  apply Ign_bind; [apply Ign_get | intros sv].
+  apply Ign_bind; [apply Ign_ret | intros raw].
+  destruct raw; [apply Ign_bind; [apply Ign_modify; intros ? ?; cbn; assumption | intros _; apply Ign_ret] |].
   apply Ign_bind; [apply Ign_modify; intros ? ?; cbn; assumption | intros _].
   apply Ign_bind; [apply Ign_downenctest | intros e].
   apply Ign_bind; [apply Ign_modify; intros ? ?; cbn; assumption | intros _].
@@ -536,14 +567,38 @@ Proof.
   apply Ign_bind; [apply Ign_any_reply | intros _; apply Ign_ret].
 Qed.
 
-Theorem step_ignores_inert st : Ign (run_step st).
+(* the steps that talk DNS only; the raw login of handshake_raw_udp takes ANY datagram as the answer to its current
+   attempt (see raw_login_* below) *)
+Definition dns_only (st : stepname) : bool :=
+  match st with SRawUdp _ => false | SFull rawmode _ _ => negb rawmode | _ => true end.
+
+Theorem step_ignores_inert st : dns_only st = true -> Ign (run_step st).
 Proof.
-  destruct st; cbn [run_step];
+  destruct st; cbn [run_step dns_only]; intros Hd; try discriminate Hd;
+    try (destruct rawmode; [discriminate Hd |]);
     first [ apply Ign_login | apply Ign_full
           | apply Ign_bind; [| intros ?; apply Ign_ret];
             first [apply Ign_version | apply Ign_qtype_auto | apply Ign_downenctest | apply Ign_upenctest | apply Ign_upenc_auto
                   | apply Ign_downenc_auto | apply Ign_qtypetest | apply Ign_autoprobe | apply Ign_switch_codec | apply Ign_any_reply
                   | apply Ign_try_lazy | apply Ign_lazyoff] ].
+Qed.
+
+(* the raw login: junk cannot make it succeed -- it returns 1 only if one of the datagrams that arrived carries the raw
+   header, the login command and login(seed - 1) -- but junk does use up an attempt (witness below) *)
+Lemma raw_login_sound seed n s l :
+  fst (fst (attempts n (rawlogin_body seed) (ret false) s l)) = true ->
+  exists m d, In (ID m d) l /\ cli_raw_accepts (h_pass s) seed (skipn 4 (firstn cap_full (subst m (h_cid s) (h_lastc s) d))) = true.
+Proof.
+  revert s l; induction n as [|n IH]; intros s l; cbn [attempts]; [cbn; discriminate |].
+  unfold bind at 1, rawlogin_body at 1, bind at 1 2 3, send_raw, modify, raw_wait, get.
+  destruct l as [|[|m d] r]; cbn [fst snd].
+  - intros H; destruct (IH _ _ H) as (m & d & [] & _).
+  - intros H; destruct (IH _ _ H) as (m & d & Hin & Hok); exists m, d; split; [right; exact Hin | exact Hok].
+  - cbn [h_pass h_cid h_lastc]. 
+    destruct (raw_login_ok _ _ _) eqn:E.
+    + intros _; exists m, d; split; [left; reflexivity |].
+      unfold raw_login_ok in E. apply andb_prop in E; destruct E as [_ E]. exact E.
+    + intros H; destruct (IH _ _ H) as (m' & d' & Hin & Hok); exists m', d'; split; [right; exact Hin | exact Hok].
 Qed.
 
 (* ---- (3) what one test yields on a path that answers promptly / not at all --------------------------- *)
